@@ -351,6 +351,27 @@ func genConc() (string, string) {
 		syncPlain = false
 	}
 	add("cf_append_checks_status_once", "WAL.Append: one atomic.LoadInt32 (the status), before the first writeRecord", statusOnce)
+	// every entry point that appends refuses while the log is marked as rotating: a
+	// `return ..., ErrWALRotating` in front of its first write
+	refuses := true
+	for _, name := range []string{"Append", "AppendWithSequence", "AppendBatch", "AppendBatchWithSequence", "AppendExactBytes"} {
+		fd := walm[name]
+		if fd == nil {
+			refuses = false
+			continue
+		}
+		found := false
+		ast.Inspect(fd.Body, func(n ast.Node) bool {
+			if r, ok := n.(*ast.ReturnStmt); ok && len(r.Results) > 0 {
+				if id, ok := r.Results[len(r.Results)-1].(*ast.Ident); ok && id.Name == "ErrWALRotating" {
+					found = true
+				}
+			}
+			return true
+		})
+		refuses = refuses && found
+	}
+	add("cf_appends_refuse_rotating", "WAL.Append / AppendWithSequence / AppendBatch / AppendBatchWithSequence / AppendExactBytes each return ErrWALRotating", refuses)
 	add("cf_sync_behind_record_unconditional", "WAL.maybeSync / flushAndSyncLocked do not read the status", syncPlain)
 
 	var b strings.Builder
